@@ -62,7 +62,9 @@ def confirm(src, name):
         sh("git -C /repo worktree remove --force %s" % wt)
 
 
-def run(name, props, scratch=False):
+def run(name, props, scratch=False, iso=False):
+    """iso: run in a private copy of /verif (built files included) against a scratch copy of /repo, so that
+    changes which alter the generated tables can be tried while other work goes on in /verif and /repo"""
     dst = os.path.join(SEEDED, name)
     meta = json.load(open(os.path.join(dst, "meta.json")))
     if not props:
@@ -76,6 +78,8 @@ def run(name, props, scratch=False):
         rc, out = sh("patch -p1 -d %s < %s" % (wt, os.path.join(dst, "patch.diff")))
         assert rc == 0, out
         rc, out = sh("CURTSIES_REPO=%s GEN_TABLES_STDOUT=1 %s gen/gen_tables.py | cmp - coq/Gen/Tables.v" % (wt, PY), cwd=ROOT)
+        if rc != 0 and iso:
+            rc = 0
         if rc != 0:
             print("%s changes the generated tables: needs an exclusive run against /repo (skipped)" % name)
             sh("rm -rf %s" % wt)
@@ -87,10 +91,19 @@ def run(name, props, scratch=False):
         rc, out = sh("git -C /repo apply %s" % os.path.join(dst, "patch.diff"))
         assert rc == 0, out
     results = meta.setdefault("checks", {})
+    run_root = ROOT
+    if iso:
+        run_root = "/tmp/verif_iso_%s" % name
+        sh("rm -rf %s" % run_root)
+        rc, out = sh("rsync -a --exclude .git --exclude replays --exclude 'coq/Cases/*' %s/ %s/" % (ROOT, run_root))
+        assert rc == 0, out
     try:
         for p in props:
             t0 = time.time()
-            rc, out = sh("%s harness/check.py %s --tier quick" % (PY, p), cwd=ROOT, env=env, timeout=3600)
+            rc, out = sh("%s harness/check.py %s --tier quick" % (PY, p), cwd=run_root, env=env, timeout=3600)
+            if iso:
+                out = out.replace(run_root + "/", ROOT + "/")
+                sh("mkdir -p %s/replays && cp -n %s/replays/* %s/replays/ 2>/dev/null" % (ROOT, run_root, ROOT))
             vio = [l for l in out.splitlines() if l.startswith("VIOLATION")]
             results[p] = {"exit": rc, "violation_line": vio[0] if vio else None, "wall_s": round(time.time() - t0, 1),
                           "caught": bool(rc != 0 and vio)}
@@ -101,8 +114,10 @@ def run(name, props, scratch=False):
                     body = json.load(open(rp))
                     results[p]["replay_kind"] = body.get("kind")
                     results[p]["replay_input"] = body.get("input")
-            results[p]["ran_against"] = "scratch copy of /repo (CURTSIES_REPO)" if scratch else "/repo with the patch applied, undone afterwards"
+            results[p]["ran_against"] = ("private copy of /verif + scratch copy of /repo" if iso else "scratch copy of /repo (CURTSIES_REPO)") if scratch else "/repo with the patch applied, undone afterwards"
     finally:
+        if iso:
+            sh("rm -rf %s" % run_root)
         if scratch:
             sh("rm -rf %s" % wt)
         else:
@@ -121,3 +136,5 @@ if __name__ == "__main__":
         sys.exit(run(sys.argv[2], sys.argv[3:]))
     elif sys.argv[1] == "run-scratch":
         sys.exit(run(sys.argv[2], sys.argv[3:], scratch=True))
+    elif sys.argv[1] == "run-iso":
+        sys.exit(run(sys.argv[2], sys.argv[3:], scratch=True, iso=True))
